@@ -73,6 +73,18 @@ impl Violation {
 pub struct Inconclusive(pub String);
 
 pub type CheckResult = Result<CaseInfo, CheckError>;
+/// Runs one check; a panic inside the harness (a process that could not be spawned, a scratch
+/// directory that could not be created, ...) says nothing about the property: inconclusive.
+pub fn guarded(f: impl FnOnce() -> CheckResult) -> CheckResult {
+    match std::panic::catch_unwind(std::panic::AssertUnwindSafe(f)) {
+        Ok(r) => r,
+        Err(p) => {
+            let msg = p.downcast_ref::<String>().cloned().or_else(|| p.downcast_ref::<&str>().map(|s| s.to_string())).unwrap_or_else(|| "?".into());
+            Err(CheckError::Inconclusive(format!("panic inside the harness: {}", msg)))
+        }
+    }
+}
+
 #[derive(Debug, Clone)]
 pub enum CheckError {
     Violation(Violation),
@@ -337,7 +349,7 @@ impl Ctx {
                             serde_json::to_value(&case).unwrap_or(Value::Null),
                         ));
                         let t_case = Instant::now();
-                        let res = check(&case, w);
+                        let res = guarded(|| check(&case, w));
                         *current[w].lock().unwrap() = None;
                         if let Ok(ms) = std::env::var("VERIF_DEBUG_SLOW") {
                             if t_case.elapsed().as_millis() as u64 > ms.parse::<u64>().unwrap_or(10_000) {
@@ -360,25 +372,32 @@ impl Ctx {
                         }
                     });
                     if let Err(TestError::Fail(_reason, value)) = r {
-                        if self.shrunk.swap(true, Ordering::SeqCst) {
+                        if self.shrunk.load(Ordering::SeqCst) {
                             // one counterexample per run is enough
                             done.fetch_add(1, Ordering::SeqCst);
                             return;
                         }
                         // re-run the minimal case to get its own violation record
-                        let res = check(&value, w);
+                        let res = guarded(|| check(&value, w));
                         let v = match res {
-                            Err(CheckError::Violation(v)) if self.is_known(&v).is_none() => v,
-                            _ => last_fail.lock().unwrap().clone().unwrap_or_else(|| {
-                                Violation::new("unknown", "failure did not reproduce on re-run".into())
-                            }),
+                            Err(CheckError::Violation(v)) if self.is_known(&v).is_none() => Some(v),
+                            _ => last_fail.lock().unwrap().clone(),
                         };
                         let cv = serde_json::to_value(&value).unwrap_or(Value::Null);
-                        self.stats
-                            .lock()
-                            .unwrap()
-                            .violations
-                            .push((label.to_string(), v, cv));
+                        match v {
+                            Some(v) => {
+                                if !self.shrunk.swap(true, Ordering::SeqCst) {
+                                    self.stats.lock().unwrap().violations.push((label.to_string(), v, cv));
+                                }
+                            }
+                            // no oracle ever produced a violation for this failure (the harness
+                            // itself panicked, e.g. a process could not be spawned), and the case
+                            // passes when run again: says nothing about the property
+                            None => self.stats.lock().unwrap().inconclusive.push(format!(
+                                "{}: a case failed without a violation record (panic inside the harness) and passed when run again: {}",
+                                label, cv
+                            )),
+                        }
                     } else if let Err(TestError::Abort(reason)) = r {
                         let mut st = self.stats.lock().unwrap();
                         st.inconclusive
@@ -484,7 +503,7 @@ impl Ctx {
                             }
                             let it = item(i);
                             *current[w].lock().unwrap() = Some((Instant::now(), i));
-                            let res = check(&it, w);
+                            let res = guarded(|| check(&it, w));
                             *current[w].lock().unwrap() = None;
                             completed.fetch_add(1, Ordering::SeqCst);
                             if let Err(_reason) = self.record(label, &it, &res) {
